@@ -949,9 +949,13 @@ def eval_runs(ctx, runs, group='runs'):
     rep_cases, rep_given, inh_c, inh_o, eli_c, eli_o = [], [], [], [], [], []
     if len(runs) > 2:       # independent, seeded runs: a few worker processes (results are plain data)
         import concurrent.futures
+        import gc
         import multiprocessing
+        gc.collect()
+        gc.freeze()
         with concurrent.futures.ProcessPoolExecutor(max_workers=4, mp_context=multiprocessing.get_context('fork')) as ex:
             records = list(ex.map(run_optimiser_case, runs))
+        gc.unfreeze()
     else:
         records = [run_optimiser_case(cfg) for cfg in runs]
     for cfg, rec in zip(runs, records):
@@ -994,7 +998,10 @@ def run(ctx):
                 'spea2} x {steady_state, generational, parameter_free} x {keep_n_best, replace_worst, none} x single / '
                 'multi objective; an exhaustive small scope (all sequences of length <= 4 over 3 individuals) for '
                 'selection and elitism; reproduction: sequences of 1..3 reproduce() calls with a scripted evaluator that '
-                'drops individuals; CUSTOM selection callables in selection_types (first-n, last-n, truncation by fitness; '
+                'drops individuals; RUNS: real EvoGraphOptimizer.optimise() runs (3-4 generations, steady_state / parameter_free / '
+                'generational with offspring_rate 1, pop_size moving, some failing evaluations) in which every call of '
+                'reproducer.reproduce (with its evaluator and requested sizes), inheritance and elitism is observed on the '
+                'instance and judged for the parameters in force at that call; CUSTOM selection callables in selection_types (first-n, last-n, truncation by fitness; '
                 'called by Selection without the de-duplicating wrapper) for Selection, Inheritance under all schemes with '
                 'overlapping prev / new, and inside sessions; SESSIONS: one Selection / Inheritance / Elitism instance sharing one GPAlgorithmParameters '
                 'object that is changed in place between 2..6 calls (pop_size, min_pop_size_with_elitism, elitism type, '
@@ -1018,13 +1025,16 @@ def run(ctx):
         pending = list(_PENDING)
         del _PENDING[:]
         _eval_replays(ctx, pending)
-    groups = [('sel', gen_selection_cases(ctx)), ('eli', gen_elitism_cases(ctx)),
-              ('inh', gen_inheritance_cases(ctx)), ('rep', gen_reproduction_cases(ctx)),
-              ('session', gen_sessions(ctx)), ('run', gen_runs(ctx))]
-    for op, cases in groups:
+    # the optimiser runs go first: their worker processes are forked while the heap is still small
+    # (a forked child that inherits the hundred thousand generated cases spends its time in gc)
+    for op, gen in (('run', gen_runs), ('sel', gen_selection_cases), ('eli', gen_elitism_cases),
+                    ('inh', gen_inheritance_cases), ('rep', gen_reproduction_cases), ('session', gen_sessions)):
+        cases = gen(ctx)
         outs = EVAL[op](ctx, cases)
         for c, o in list(zip(cases, outs))[-1:]:
-            ctx.sample({'case': c, 'observed': o})
+            if op not in ('run', 'session'):
+                ctx.sample({'case': c, 'observed': o})
+        del cases, outs
     ctx.set_exhaustive('selection', False)
 
 
